@@ -19,9 +19,13 @@ def LOcc.spell (o : LOcc) : Bytes :=
   | some v => dash :: dash :: o.name ++ Bytes.eq :: v
   | none => dash :: dash :: o.name
 
+/-- the token is not a subcommand name, alias or (under `infer_subcommands`) unambiguous prefix of one, whatever was
+parsed before - on a level without subcommands every token is like that -/
+def NoSubTok (c : Cmd) (tok : Bytes) : Prop := ∀ vaf, possibleSubcommand c tok vaf = none
+
 /-- what the occurrence means: the arg the name is a key of, with the attached value if the arg takes values -/
 def LOcc.ok (c : Cmd) (o : LOcc) : Prop :=
-  Bytes.eq ∉ o.name ∧ o.name ≠ [] ∧ Utf8.valid o.name = true ∧
+  NoSubTok c o.spell ∧ Bytes.eq ∉ o.name ∧ o.name ≠ [] ∧ Utf8.valid o.name = true ∧
   ∃ a, findLong c o.name = some a ∧ a.takesValue = o.value.isSome
 
 /-- the abstract run: one `react` per occurrence, in order, stopping at the first error -/
@@ -40,6 +44,9 @@ theorem possibleSubcommand_none_of_no_subs (c : Cmd) (h : c.subs = []) (tok : By
   unfold possibleSubcommand
   simp [h, Cmd.findSubcommand]
 
+theorem noSubTok_of_no_subs (c : Cmd) (h : c.subs = []) (tok : Bytes) : NoSubTok c tok :=
+  fun vaf => possibleSubcommand_none_of_no_subs c h tok vaf
+
 theorem spell_not_escape (o : LOcc) (hne : o.name ≠ []) : ParsedArg.isEscape o.spell = false := by
   unfold LOcc.spell ParsedArg.isEscape
   cases hn : o.name with
@@ -48,7 +55,7 @@ theorem spell_not_escape (o : LOcc) (hne : o.name ≠ []) : ParsedArg.isEscape o
 
 /-- **one token, one occurrence**: in the ground state the loop handles `--name=value` / `--name` by a single
 `react` on the named arg with exactly the attached bytes, then goes on with the rest -/
-theorem loop_long_step (c : Cmd) (similar : Bytes → Bytes → Bool) (hsubs : c.subs = []) (o : LOcc) (a : Arg)
+theorem loop_long_step (c : Cmd) (similar : Bytes → Bytes → Bool) (o : LOcc) (hns : NoSubTok c o.spell) (a : Arg)
     (hname : Bytes.eq ∉ o.name) (hne : o.name ≠ []) (hutf : Utf8.valid o.name = true)
     (hget : findLong c o.name = some a) (htv : a.takesValue = o.value.isSome)
     (ls : LoopSt) (rest : List Bytes) (p : P) (htr : ls.trailing = false) (hst : ls.st = .valuesDone) :
@@ -56,7 +63,7 @@ theorem loop_long_step (c : Cmd) (similar : Bytes → Bytes → Bool) (hsubs : c
       match react c (some .long) .cmdline a o.value.toList none p with
       | (p1, .error e) => (p1, .error e)
       | (p1, .ok _) => loop c similar { ls with validArgFound := true } rest p1 := by
-  have hsc := possibleSubcommand_none_of_no_subs c hsubs o.spell ls.validArgFound
+  have hsc := hns ls.validArgFound
   have hesc := spell_not_escape o hne
   have hfl : findLong c o.name = some a := hget
   rw [loop]
@@ -104,7 +111,7 @@ theorem loop_long_step (c : Cmd) (similar : Bytes → Bytes → Bool) (hsubs : c
 `--name=value` / `--flag` tokens with exact names is processed as exactly the sequence of occurrences it spells -
 one `react` per token, on the arg that owns the name, with exactly the bytes after `=` (none for a flag), in argv
 order; nothing is invented, dropped, duplicated or given to another arg. Induction over the command line. -/
-theorem loop_long_run (c : Cmd) (similar : Bytes → Bytes → Bool) (hsubs : c.subs = []) :
+theorem loop_long_run (c : Cmd) (similar : Bytes → Bytes → Bool) :
     ∀ (occs : List LOcc), (∀ o ∈ occs, o.ok c) → ∀ (ls : LoopSt) (p : P), ls.trailing = false → ls.st = .valuesDone →
       loop c similar ls (occs.map LOcc.spell) p = runOccs c occs p := by
   intro occs
@@ -112,8 +119,8 @@ theorem loop_long_run (c : Cmd) (similar : Bytes → Bytes → Bool) (hsubs : c.
   | nil => intro _ ls p _ _; simp [loop, runOccs]
   | cons o rest ih =>
     intro hok ls p htr hst
-    obtain ⟨hname, hne, hutf, a, hget, htv⟩ := hok o List.mem_cons_self
-    rw [List.map_cons, loop_long_step c similar hsubs o a hname hne hutf hget htv ls _ p htr hst]
+    obtain ⟨hns, hname, hne, hutf, a, hget, htv⟩ := hok o List.mem_cons_self
+    rw [List.map_cons, loop_long_step c similar o hns a hname hne hutf hget htv ls _ p htr hst]
     unfold runOccs
     rw [hget]
     simp only
@@ -130,7 +137,8 @@ example :
     let c : Cmd := .mk [112] [] none none [] [] {}
       [{ id := [111], long := some [111] }, { id := [102], long := some [102], action := some .setTrue, numVals := some ⟨0, some 0⟩ }] [] []
     c.subs = [] ∧ (⟨[111], some [118]⟩ : LOcc).ok c ∧ (⟨[102], none⟩ : LOcc).ok c := by
-  refine ⟨rfl, ⟨by decide, by decide, by decide, _, rfl, by decide⟩, ⟨by decide, by decide, by decide, _, rfl, by decide⟩⟩
+  refine ⟨rfl, ⟨noSubTok_of_no_subs _ rfl _, by decide, by decide, by decide, _, rfl, by decide⟩,
+    ⟨noSubTok_of_no_subs _ rfl _, by decide, by decide, by decide, _, rfl, by decide⟩⟩
 
 /-! #### both spellings of an option's value: `--name=value` and `--name value` -/
 
@@ -152,6 +160,7 @@ values that do not look like a flag -/
 def SOcc.ok (c : Cmd) (o : SOcc) : Prop :=
   o.toL.ok c ∧
   (o.sep = true → ∀ v, o.value = some v → ∀ a, findLong c o.name = some a →
+    NoSubTok c (dash :: dash :: o.name) ∧ NoSubTok c v ∧
     Bytes.startsWith v [dash] = false ∧ a.getNumArgs = Range.single ∧ a.requireEquals = false ∧ a.terminator = none)
 
 /-- what the caller of the loop sees: `Parser::parse`'s next step resolves whatever is still pending -/
@@ -213,7 +222,7 @@ theorem resolvePending_ok_pending (c : Cmd) (p q : P) (u : Unit) (hr : resolvePe
         rw [← this]; exact h1
 
 /-- the value token of `--name value`: it joins the pending option, which then has all its values -/
-theorem loop_value_step (c : Cmd) (similar : Bytes → Bytes → Bool) (hsubs : c.subs = []) (v : Bytes) (a : Arg)
+theorem loop_value_step (c : Cmd) (similar : Bytes → Bytes → Bool) (v : Bytes) (hnsv : NoSubTok c v) (a : Arg)
     (hfind : c.find a.id = some a)
     (hv : Bytes.startsWith v [dash] = false) (hnum : a.getNumArgs = Range.single) (hterm : a.terminator = none)
     (ls : LoopSt) (rest : List Bytes) (q : P) (htr : ls.trailing = false) (hst : ls.st = .opt a.id)
@@ -221,7 +230,7 @@ theorem loop_value_step (c : Cmd) (similar : Bytes → Bytes → Bool) (hsubs : 
     loop c similar ls (v :: rest) q =
       loop c similar { ls with st := .valuesDone } rest
         { q with pending := some { id := a.id, ident := some .long, rawVals := [v], trailingIdx := none } } := by
-  have hsc : ∀ tok vaf, possibleSubcommand c tok vaf = none := possibleSubcommand_none_of_no_subs c hsubs
+  have hsc := hnsv ls.validArgFound
   obtain ⟨hvesc, hvlong, hvshort⟩ := noDash_lex hv
   have hterm' : isTerminator a v = false := by simp [isTerminator, hterm]
   have hnm : needsMoreVals { q with pending := some { id := a.id, ident := some .long, rawVals := [v], trailingIdx := none } } a = false := by
@@ -232,7 +241,8 @@ theorem loop_value_step (c : Cmd) (similar : Bytes → Bytes → Bool) (hsubs : 
 
 /-- **`--name value`**: from the ground state the two tokens leave exactly the value pending for the named arg
 (after resolving what was pending before) and return to the ground state -/
-theorem loop_sep_step (c : Cmd) (wf : C01.WF c) (similar : Bytes → Bytes → Bool) (hsubs : c.subs = []) (name v : Bytes)
+theorem loop_sep_step (c : Cmd) (wf : C01.WF c) (similar : Bytes → Bytes → Bool) (name v : Bytes)
+    (hns : NoSubTok c (dash :: dash :: name)) (hnsv : NoSubTok c v)
     (a : Arg) (hname : Bytes.eq ∉ name) (hne : name ≠ []) (hutf : Utf8.valid name = true)
     (hget : findLong c name = some a) (htv : a.takesValue = true)
     (hv : Bytes.startsWith v [dash] = false) (hnum : a.getNumArgs = Range.single) (hreq : a.requireEquals = false)
@@ -244,7 +254,7 @@ theorem loop_sep_step (c : Cmd) (wf : C01.WF c) (similar : Bytes → Bytes → B
       | (q, .ok ()) =>
         loop c similar { ls with validArgFound := true } rest
           { q with pending := some { id := a.id, ident := some .long, rawVals := [v], trailingIdx := none } } := by
-  have hsc : ∀ tok vaf, possibleSubcommand c tok vaf = none := possibleSubcommand_none_of_no_subs c hsubs
+  have hsc := hns ls.validArgFound
   have hfl : findLong c name = some a := hget
   obtain ⟨hfind, _⟩ := C01.findLong_spec wf hfl
   have htl : ParsedArg.toLong (dash :: dash :: name) = some (name, Utf8.valid name, none) :=
@@ -269,7 +279,7 @@ theorem loop_sep_step (c : Cmd) (wf : C01.WF c) (similar : Bytes → Bytes → B
       have hqn : q.pending = none := resolvePending_ok_pending c p q u hr
       simp only [pendingPush, hqn, Option.getD_none, bne_self_eq_false, Bool.false_eq_true, ↓reduceIte,
         Option.isSome_some, Bool.true_and]
-      have := loop_value_step c similar hsubs v a hfind hv hnum hterm
+      have := loop_value_step c similar v hnsv a hfind hv hnum hterm
         { st := .opt a.id, posCounter := ls.posCounter, validArgFound := true, trailing := false } rest
         { q with pending := some { id := a.id, ident := some .long, rawVals := [], trailingIdx := none } } rfl rfl rfl
       simpa [hst, htr] using this
@@ -285,7 +295,7 @@ theorem resolvePending_some (c : Cmd) (q : P) (a : Arg) (v : Bytes) (hq : q.pend
 (`--name=value`) or in the next token (`--name value`), in any mixture, is observed by the rest of the parser as
 exactly the sequence of occurrences it spells - one `react` per occurrence on the owner of the name with exactly
 the value's bytes, in order -/
-theorem loop_spellings (c : Cmd) (wf : C01.WF c) (similar : Bytes → Bytes → Bool) (hsubs : c.subs = []) :
+theorem loop_spellings (c : Cmd) (wf : C01.WF c) (similar : Bytes → Bytes → Bool) :
     ∀ (occs : List SOcc), (∀ o ∈ occs, o.ok c) → ∀ (ls : LoopSt) (p : P), ls.trailing = false → ls.st = .valuesDone →
       obs c (loop c similar ls (occs.flatMap SOcc.spell) p) =
         match resolvePending c p with
@@ -298,7 +308,7 @@ theorem loop_spellings (c : Cmd) (wf : C01.WF c) (similar : Bytes → Bytes → 
     simp only [List.flatMap_nil, loop, obs, List.map_nil, runOccs, obsA]
   | cons o rest ih =>
     intro hok ls p htr hst
-    obtain ⟨⟨hname, hne, hutf, a, hget, htv⟩, hsep⟩ := hok o List.mem_cons_self
+    obtain ⟨⟨hns, hname, hne, hutf, a, hget, htv⟩, hsep⟩ := hok o List.mem_cons_self
     simp only [SOcc.toL] at hname hne hutf hget htv
     have hok' : ∀ o' ∈ rest, o'.ok c := fun o' ho' => hok o' (List.mem_cons_of_mem _ ho')
     have hfl : findLong c o.name = some a := hget
@@ -326,21 +336,21 @@ theorem loop_spellings (c : Cmd) (wf : C01.WF c) (similar : Bytes → Bytes → 
         | none =>
           have hsp : o.spell = [o.toL.spell] := by simp [SOcc.spell, hv]
           rw [hsp, List.singleton_append,
-            loop_long_step c similar hsubs o.toL a hname hne hutf hget htv ls _ p htr hst]
+            loop_long_step c similar o.toL hns a hname hne hutf hget htv ls _ p htr hst]
           unfold react; rw [hr]; rfl
         | some v =>
           cases hs : o.sep with
           | false =>
             have hsp : o.spell = [o.toL.spell] := by simp [SOcc.spell, hv, hs]
             rw [hsp, List.singleton_append,
-              loop_long_step c similar hsubs o.toL a hname hne hutf hget htv ls _ p htr hst]
+              loop_long_step c similar o.toL hns a hname hne hutf hget htv ls _ p htr hst]
             unfold react; rw [hr]; rfl
           | true =>
-            obtain ⟨hvd, hnum, hreq, hterm⟩ := hsep hs v hv a hget
+            obtain ⟨hns1, hnsv, hvd, hnum, hreq, hterm⟩ := hsep hs v hv a hget
             have hsp : o.spell = [dash :: dash :: o.name, v] := by simp [SOcc.spell, hv, hs]
             rw [hsp]
             simp only [List.cons_append, List.nil_append]
-            rw [loop_sep_step c wf similar hsubs o.name v a hname hne hutf hget (by rw [htv, hv]; rfl) hvd hnum hreq hterm
+            rw [loop_sep_step c wf similar o.name v hns1 hnsv a hname hne hutf hget (by rw [htv, hv]; rfl) hvd hnum hreq hterm
               ls _ p htr hst, hr]
             rfl
       | ok u =>
@@ -352,7 +362,7 @@ theorem loop_spellings (c : Cmd) (wf : C01.WF c) (similar : Bytes → Bytes → 
               obsA (runOccs c (o.toL :: rest.map SOcc.toL) q) := by
           intro hsp
           rw [hsp, List.singleton_append,
-            loop_long_step c similar hsubs o.toL a hname hne hutf hget htv ls _ p htr hst]
+            loop_long_step c similar o.toL hns a hname hne hutf hget htv ls _ p htr hst]
           have hreact : react c (some .long) .cmdline a o.toL.value.toList none p =
               reactCore c (some .long) .cmdline a o.value.toList none q := by
             unfold react; rw [hr]; rfl
@@ -374,11 +384,11 @@ theorem loop_spellings (c : Cmd) (wf : C01.WF c) (similar : Bytes → Bytes → 
           cases hs : o.sep with
           | false => exact one (by simp [SOcc.spell, hv, hs])
           | true =>
-            obtain ⟨hvd, hnum, hreq, hterm⟩ := hsep hs v hv a hget
+            obtain ⟨hns1, hnsv, hvd, hnum, hreq, hterm⟩ := hsep hs v hv a hget
             have hsp : o.spell = [dash :: dash :: o.name, v] := by simp [SOcc.spell, hv, hs]
             rw [hsp]
             simp only [List.cons_append, List.nil_append]
-            rw [loop_sep_step c wf similar hsubs o.name v a hname hne hutf hget (by rw [htv, hv]; rfl) hvd hnum hreq hterm
+            rw [loop_sep_step c wf similar o.name v hns1 hnsv a hname hne hutf hget (by rw [htv, hv]; rfl) hvd hnum hreq hterm
               ls _ p htr hst, hr]
             simp only
             rw [ih hok' { ls with validArgFound := true } _ htr hst, resolvePending_some c q a v hq hfind]
@@ -392,12 +402,12 @@ theorem loop_spellings (c : Cmd) (wf : C01.WF c) (similar : Bytes → Bytes → 
 /-- **`--name=value` and `--name value` are interchangeable** (C08, at the level of whole command lines): two
 command lines that spell the same occurrences, differing only in which values are attached, are observed
 identically - same matches-in-progress or same error -/
-theorem spellings_equivalent (c : Cmd) (wf : C01.WF c) (similar : Bytes → Bytes → Bool) (hsubs : c.subs = [])
+theorem spellings_equivalent (c : Cmd) (wf : C01.WF c) (similar : Bytes → Bytes → Bool)
     (occs occs' : List SOcc) (hok : ∀ o ∈ occs, o.ok c) (hok' : ∀ o ∈ occs', o.ok c)
     (hsame : occs.map SOcc.toL = occs'.map SOcc.toL) (ls : LoopSt) (p : P)
     (htr : ls.trailing = false) (hst : ls.st = .valuesDone) :
     obs c (loop c similar ls (occs.flatMap SOcc.spell) p) = obs c (loop c similar ls (occs'.flatMap SOcc.spell) p) := by
-  rw [loop_spellings c wf similar hsubs occs hok ls p htr hst, loop_spellings c wf similar hsubs occs' hok' ls p htr hst, hsame]
+  rw [loop_spellings c wf similar occs hok ls p htr hst, loop_spellings c wf similar occs' hok' ls p htr hst, hsame]
 
 /-- the hypotheses are met by `prog --opt v --flag --opt=w` (an option spelt both ways, and a flag) -/
 example :
@@ -405,15 +415,16 @@ example :
       [{ id := [111], long := some [111] }, { id := [102], long := some [102], action := some .setTrue, numVals := some ⟨0, some 0⟩ }] [] []
     c.subs = [] ∧ (⟨[111], some [118], true⟩ : SOcc).ok c ∧ (⟨[102], none, false⟩ : SOcc).ok c ∧
       (⟨[111], some [119], false⟩ : SOcc).ok c := by
-  refine ⟨rfl, ⟨⟨by decide, by decide, by decide, _, rfl, by decide⟩, ?_⟩, ⟨⟨by decide, by decide, by decide, _, rfl, by decide⟩, ?_⟩,
-    ⟨⟨by decide, by decide, by decide, _, rfl, by decide⟩, ?_⟩⟩
+  refine ⟨rfl, ⟨⟨noSubTok_of_no_subs _ rfl _, by decide, by decide, by decide, _, rfl, by decide⟩, ?_⟩,
+    ⟨⟨noSubTok_of_no_subs _ rfl _, by decide, by decide, by decide, _, rfl, by decide⟩, ?_⟩,
+    ⟨⟨noSubTok_of_no_subs _ rfl _, by decide, by decide, by decide, _, rfl, by decide⟩, ?_⟩⟩
   · intro _ v hv a ha
     simp [SOcc.toL] at hv ha
     subst hv
     have : a = { id := [111], long := some [111] } := by
       simpa [findLong, Cmd.getLong, Cmd.getKey, Cmd.args, Arg.keys] using ha.symm
     subst this
-    decide
+    exact ⟨noSubTok_of_no_subs _ rfl _, noSubTok_of_no_subs _ rfl _, by decide, by decide, by decide, by decide⟩
   · intro h; cases h
   · intro h; cases h
 
@@ -436,12 +447,12 @@ theorem runOccs_congr (c : Cmd) : ∀ (l l' : List LOcc),
 
 /-- **any long spelling of the same occurrences** - canonical name, alias, unambiguous prefix (with
 `infer_long_args`), value attached or separate, in any mixture - is observed identically (C08, whole command lines) -/
-theorem long_spellings_equivalent (c : Cmd) (wf : C01.WF c) (similar : Bytes → Bytes → Bool) (hsubs : c.subs = [])
+theorem long_spellings_equivalent (c : Cmd) (wf : C01.WF c) (similar : Bytes → Bytes → Bool)
     (occs occs' : List SOcc) (hok : ∀ o ∈ occs, o.ok c) (hok' : ∀ o ∈ occs', o.ok c)
     (hsame : occs.map (fun o => (findLong c o.name, o.value)) = occs'.map (fun o => (findLong c o.name, o.value)))
     (ls : LoopSt) (p : P) (htr : ls.trailing = false) (hst : ls.st = .valuesDone) :
     obs c (loop c similar ls (occs.flatMap SOcc.spell) p) = obs c (loop c similar ls (occs'.flatMap SOcc.spell) p) := by
-  rw [loop_spellings c wf similar hsubs occs hok ls p htr hst, loop_spellings c wf similar hsubs occs' hok' ls p htr hst]
+  rw [loop_spellings c wf similar occs hok ls p htr hst, loop_spellings c wf similar occs' hok' ls p htr hst]
   have : ∀ q, runOccs c (occs.map SOcc.toL) q = runOccs c (occs'.map SOcc.toL) q :=
     runOccs_congr c _ _ (by simpa [List.map_map, SOcc.toL, Function.comp_def] using hsame)
   cases resolvePending c p with
